@@ -207,6 +207,9 @@ def write_evidence(mod, cid, tier, seed, results, wall, by_sig, known_hits, inco
             'outcome_census': classes,
             'pins_by_site': dict(sorted(pins.items(), key=lambda kv: -kv[1])[:15]),
             'known_findings_hit': sorted(known_hits),
+            'preferred_witnesses': sum(r.get('preferred_witnesses', 0) for r in results),
+            'witness_obligations': sum(r.get('witness_obligations', 0) for r in results),
+            'witness_discharged': sum(r.get('witness_discharged', 0) for r in results),
             'new_violation_signatures': sorted(by_sig),
             'inconclusive': inconclusive[:10],
             'technique': getattr(mod, 'TECHNIQUE', 'symbolic execution of the real code (proxy carriers, z3), per-path concrete replay'),
